@@ -270,7 +270,7 @@ MANIFEST = {
                    "windows, weight vectors, filter maps and request sequences; the model is tied to the code on every run by an in-Coq correspondence "
                    "(exhaustive small-n enumeration over permutations x masks x windows, sampled larger ensembles, function level, through "
                    "EnsembleEvaluator.calculate for functions and gradients, and through optimizer / evaluator steps)."),
-    "level_note": ("Proved (Props/C05.v, 22 theorems, all 'Closed under the global context'): rank-window characterisation (C05_window, C05_ranking) and its form for ANY "
+    "level_note": ("Later proof items (Proofs/FiltersCut.v): `window_ok` is proved sound and complete also on tie groups cut by a window edge - C05_checker_sound_cut, C05_checker_exact, C05_checker_group_count. Proved (Props/C05.v, 22 theorems, all 'Closed under the global context'): rank-window characterisation (C05_window, C05_ranking) and its form for ANY "
                    "ranking argsort may return (C05_tie_robust, C05_model_is_along), failed never ranked, empty window => TOO_FEW_REALIZATIONS at filter level "
                    "(C05_empty_is_too_few_*), at evaluator level (C05_emptied_window_is_too_few: no value, no other exit code) and for optimizer / evaluator steps "
                    "(C05_step_exit_code, C05_step_first_evaluation_aborts, C05_evaluator_step_exit_code), range rejection at configuration time, each filter's row "
